@@ -298,3 +298,7 @@ pub proof fn lemma_join_prefix_len(a: Seq<Seq<u8>>, b: Seq<Seq<u8>>)
     }
 }
 } // verus!
+verus! {
+pub assume_specification<A: smallvec::Array> [smallvec::SmallVec::<A>::is_empty] (v: &smallvec::SmallVec<A>) -> (r: bool)
+    ensures r == (sv_view(v).len() == 0);
+} // verus!
